@@ -5,6 +5,8 @@ import "verifrt/driver"
 // Scenarios is the registry the generated main calls.
 func Scenarios(property string, thorough bool) []driver.Scenario {
 	switch property {
+	case "C20":
+		return c20Scenarios(thorough)
 	case "C05":
 		return c05Scenarios(thorough)
 	case "C11":
